@@ -89,8 +89,8 @@ contract('bespokeasm.assembler.line_object.directive_line.memzone:SetMemoryZoneL
                    'self._memzone', 'self._compilable', 'self._is_muted', 'self._label_scope'],
          no_frame_check=True)
 
-contract('bespokeasm.utilities:parse_numeric_string', props=['C05'], assumed=True,
-         reason='numeric literal notation (regex based; its notations are covered by the bounded stand-in of C07)',
+contract('bespokeasm.utilities:parse_numeric_string', name='abs:parse_numeric_string', props=['C05'], assumed=True,
+         reason='numeric literal notation: verified for C07 (contracts/c07_expressions.py, `literal-notations`); here only its use',
          may_raise={'SystemExit': 'True', 'ValueError': 'True'}, ensures=[], modifies=[], no_frame_check=True)
 # `#create_memzone NAME start end`: the zone registered under NAME is exactly [start, end], and only if it lies inside GLOBAL
 contract('bespokeasm.assembler.line_object.preprocessor_line.create_memzone:CreateMemzoneLine.__init__', name='create-zone-line',
